@@ -41,6 +41,8 @@ def usageCalls : List (String × String × String × String × String) := [
   ("GPValve.headloss_curve_name.setter", "remove_usage", "curve", "self._headloss_curve_name", "(self._link_name, 'Valve')"),
   ("GPValve.headloss_curve_name.setter", "add_usage", "curve", "name", "(self._link_name, 'Valve')"),
   ("GPValve.headloss_curve_name.setter", "set_curve_type", "curve", "name", "'HEADLOSS'"),
+  ("Demands._edit", "remove_usage", "pattern", "p", "self._user"),
+  ("Demands._edit", "add_usage", "pattern", "p", "self._user"),
   ("Source.__init__", "add_usage", "pattern", "self._strength_timeseries.pattern_name", "(name, 'Source')"),
   ("Source.__init__", "add_usage", "node", "node_name", "(name, 'Source')"),
   ("Source.name.setter", "remove_usage", "pattern", "pat", "(self._name, 'Source')"),
